@@ -3,6 +3,7 @@ package checks
 import (
 	"fmt"
 	"strings"
+	"time"
 
 	wire "github.com/jeroenrinzema/psql-wire"
 	"github.com/lib/pq/oid"
@@ -305,6 +306,33 @@ func (ch c05) Run(c *core.Ctx) {
 	}
 	if cl != nil {
 		cl.Finish()
+	}
+	// a Query of three statements whose first statement shuts the server down (Close from another
+	// goroutine, the statement waits until the listener refuses connections): a Query that has started is
+	// answered in full
+	if c.Batch == 3%nb && c.Begin(91000000) {
+		e2 := hs.Start(hs.Parse)
+		stmt := func(i int) *hs.Stmt {
+			return &hs.Stmt{ID: fmt.Sprintf("s%d", i), Cols: textCols(1), Ops: []hs.Op{{K: "row", Vals: []any{fmt.Sprintf("v%d", i)}}, {K: "complete", Tag: fmt.Sprintf("SELECT %d", i)}}}
+		}
+		first := stmt(1)
+		first.Ops = append([]hs.Op{{K: "call", Fn: func() {
+			go e2.Srv.Close()
+			for i := 0; i < 5000 && e2.L.Closes.Load() == 0; i++ {
+				time.Sleep(time.Millisecond) // (until the server has closed its listener: Close is under way)
+			}
+		}}}, first.Ops...)
+		cl := hs.NewClient(e2.Dial(&hs.Sess{Progs: map[string]*hs.Prog{"shutdown; two; three": {Stmts: []*hs.Stmt{first, stmt(2), stmt(3)}}}}))
+		if err := cl.StartupOK("u"); err == nil {
+			out, _ := cl.Step(pg.Query("shutdown; two; three"))
+			c.Count("batches_that_close_the_server", 1)
+			c.Eval("close inside batch", true)
+			if got := pg.Types(mustMsgs(out)); got != "TDCTDCTDCZ" {
+				c.Violate("cycle", "a three-statement Query during which the server was closed is not answered by the results of its statements in order and one ReadyForQuery", fmt.Sprintf("reply %q, want TDCTDCTDCZ", got), nil)
+			}
+		}
+		cl.C.CloseWrite()
+		cl.C.WaitClosed()
 	}
 	// a Query whose statement starts COPY-in and fails before it has read the stream: one ErrorResponse,
 	// one ReadyForQuery - also when the client, as drivers do, still ends the copy afterwards; the next
